@@ -39,6 +39,10 @@ func genWFault(tier string, seed uint64) {
 				for k := 0; k <= ref.calls; k++ {
 					for _, m := range []string{"e0", "s0", "b0", "e1", "s1", "b1"} {
 						emit("wfault %s %s %s %s %d %s", f, o[0], o[1], d, k, m)
+						if k%2 == 0 {
+							// the destination also offers WriteString
+							emit("wfault %sw %s %s %s %d %s", f, o[0], o[1], d, k, m)
+						}
 					}
 				}
 			}
